@@ -192,6 +192,39 @@ def main(tier, seed, scale=1.0):
             log("C06: binary %s exited with %s: %s" % (b, rc, err[-500:]))
         for c in cases:
             judge(chk, c, obs, dropped)
+    # unsized tails handed to a custom method: the method gets a reference to the field, whatever the builder needs
+    from .. import harness as H
+    RT = S.RT
+    utext = ("#[derive(::educe::Educe)]\n#[educe(Debug)]\npub struct Pk<T: ?Sized> {\n    pub id: u8,\n    #[educe(Debug(method(%szz_szv)))]\n    pub tail: T,\n}\n"
+             "#[derive(::educe::Educe)]\n#[educe(Debug(name = false))]\npub struct Tu<T: ?Sized>(pub u8, #[educe(Debug(method = %szz_szv))] pub T);\n"
+             "#[derive(::educe::Educe)]\n#[educe(Debug(name = false))]\npub struct Mp<T> where T: ?Sized {\n    pub id: u8,\n    #[educe(Debug(method(\"%szz_szv\"), name = t))]\n    pub tail: T,\n}\n"
+             % (RT, RT, RT))
+    udrive = ("        let p: ::std::boxed::Box<Pk<[u8]>> = ::std::boxed::Box::new(Pk { id: 7, tail: [1u8, 2, 3] });\n"
+              "        let t: ::std::boxed::Box<Tu<dyn ::core::fmt::Debug>> = ::std::boxed::Box::new(Tu(7, 5u16));\n"
+              "        let m: ::std::boxed::Box<Mp<[u16]>> = ::std::boxed::Box::new(Mp { id: 7, tail: [1u16, 2] });\n"
+              "        let s = Pk { id: 1, tail: 9u32 };\n"
+              "        %sbegin(); %sobs(\"unszd\", \"unsized\", 0, -1, &%shex(&format!(\"{:?}|{:?}|{:?}|{:?}|{:#?}\", p, t, m, s, m)));" % (RT, RT, RT))
+    uc = BH.Case("unszd", None, utext, [], drive=udrive, info={})
+    uc.module = lambda c=uc: H.module(c.cid, c.text + "pub fn run() {\n    %sguarded(\"%s\", || {\n%s\n    });\n}\n" % (RT, c.cid, c.drive))
+    obs, dropped, crashed, _, _ = BH.execute("c06u", [uc])
+    o = obs.get("unszd")
+    if "unszd" in dropped:
+        d = dropped["unszd"][0]
+        chk.violation("unsized-tail-does-not-compile", "Debug with a custom method on a `?Sized` tail does not compile: %s\n%s" % (d.get("rendered") or d["message"], utext),
+                      {"case.rs": uc.module()})
+    elif o is None or not o.recs:
+        chk.inconc("unsized-not-run")
+    else:
+        got = H.unhex(o.recs[0][3][0])
+        want = ("Pk { id: 7, tail: <3:[u8]> }|(7, <2:dyn core::fmt::Debug>)|{id: 7, t: <4:[u16]>}|Pk { id: 1, tail: <4:u32> }|"
+                "{\n    id: 7,\n    t: <4:[u16]>,\n}")
+        chk.evaluations += 1
+        if got != want:
+            chk.violation("unsized-tail|method-argument", "the custom method of an unsized tail does not get a reference to the field\nobserved: %s\nexpected: %s\n%s"
+                          % (got, want, utext), {"case.rs": uc.module()})
+        else:
+            chk.held("unsized-tail", True, 1)
+            chk.count("unsized-tail-method")
     # differential family: parameter-free requests over std field types against std's derives
     tw = TW.cases(seed, PROP, max(40, n // 4), "dbg")
     obs, dropped, crashed, _, _ = BH.execute("c06w", tw)
